@@ -128,7 +128,9 @@ func runMemLimit(o opts, out *Output) {
 			cons := arrow_record.NewConsumer(arrow_record.WithMemoryLimit(lim), arrow_record.WithMeterProvider(mp))
 			firstRefusal := len(bars)
 			var classes []string
+			opened := map[string]bool{}
 			for i, b := range bars {
+				arrow_record.VerifConsumeReset()
 				res := safeTracesFrom(cons, b)
 				classes = append(classes, res.Class)
 				stats["outcome_"+res.Class]++
@@ -149,6 +151,28 @@ func runMemLimit(o opts, out *Output) {
 							out.Violation("C14", "refusal-not-recognisable", fmt.Sprintf("limit %d: batch %d refused with an error that is not the memory-limit error: %s", lim, i, res.Msg), replay)
 							firstRefusal = i
 						}
+					}
+				}
+				// which sub-streams had a live reader, and was one of them opened again (i.e. had been dropped)?
+				reopened := false
+				for _, ev := range arrow_record.VerifConsumeLog() {
+					if ev.Stage == "open" && ev.Payload < len(b.ArrowPayloads) {
+						sid := b.ArrowPayloads[ev.Payload].SchemaId
+						if opened[sid] {
+							reopened = true
+						}
+						if ev.OK {
+							opened[sid] = true
+						}
+					}
+				}
+				if i > firstRefusal {
+					stats["after_refusal_"+res.Class]++
+					// After a refusal the sub-streams that were never opened are out of step (any error is acceptable
+					// there), but a sub-stream whose reader was live keeps answering with the recognisable limit error:
+					// dropping that reader turns the refusal into an unrelated "invalid message type" error.
+					if res.Class == "error" && reopened {
+						out.Violation("C14", "refusal-not-recognisable", fmt.Sprintf("limit %d: batch %d, after the refusal of batch %d, is refused with an error that is not recognisable as the memory-limit error although its sub-stream had a live reader: %s", lim, i, firstRefusal, res.Msg), replay)
 					}
 				}
 				if mp.max > int64(lim) || mp.min < 0 {
